@@ -83,3 +83,123 @@ def l1_client(pid, tier, seed):
             raise CheckError("model self-test: %s (%s) was NOT caught by the model invariants" % (cfg, why))
     out["samples"].append(dict(model="MCClient.tla", configs=cfgs, note="one TLA+ action per handler body; see spec/Client.tla"))
     return out
+
+
+# ----------------------------------------------------------------------------- C20
+def build_pure(target):
+    os.makedirs(vlib.BIN, exist_ok=True)
+    rc, out = vlib.sh("flock %s/build.lock make -C %s/harness -f pure.mk REPO=%s OUT=%s %s/%s" % (vlib.WORK, vlib.VERIF, vlib.REPO, vlib.BIN, vlib.BIN, target), timeout=1800)
+    if rc != 0:
+        log(out[-4000:]); raise CheckError("build of %s failed" % target)
+
+
+def _viol_lines(out):
+    v = []
+    for line in out.splitlines():
+        line = line.strip().strip('"')
+        if line.startswith("VIOL "):
+            p = line.split()
+            v.append((p[1], p[2]))
+    return v
+
+
+def report_simple(pid, items, note_of):
+    """items: list of (clause, cls, detail). prints KNOWN-FINDING / VIOLATION lines; returns number of new violations"""
+    known = [k for k in vlib.load_findings() if k["property"] == pid and k["status"] == "open"]
+    groups, new = {}, 0
+    for (cl, cls, detail) in items: groups.setdefault((cl, cls), []).append(detail)
+    for (cl, cls), det in sorted(groups.items()):
+        k = next((k for k in known if k["clause"] == cl and k.get("signature", {}).get("class") in (cls, "*")), None)
+        if k:
+            log("KNOWN-FINDING: property=%s %s: %s [%s/%s, %d occurrence(s)]" % (pid, k["id"], k["what"], cl, cls, len(det)))
+            continue
+        d = os.path.join(vlib.WORK, "replay", "%s-%s-%s" % (pid, cl, cls))
+        shutil.rmtree(d, ignore_errors=True); os.makedirs(d)
+        with open(os.path.join(d, "inputs.txt"), "w") as f:
+            f.write(note_of(cl, cls) + "\n")
+            for x in det[:200]: f.write(str(x) + "\n")
+        log("VIOLATION property=%s replay=%s clause=%s class=%s count=%d" % (pid, d, cl, cls, len(det)))
+        new += 1
+    return new
+
+
+def c20_stage(pid, tier, seed):
+    build_pure("vec_rc")
+    d = os.path.join(vlib.WORK, "run", "c20"); shutil.rmtree(d, ignore_errors=True); os.makedirs(d)
+    res = os.path.join(d, "results.ndjson")
+    rc, out = vlib.sh([os.path.join(vlib.BIN, "vec_rc"), res], timeout=300,
+                      env=dict(ASAN_OPTIONS="halt_on_error=0:detect_leaks=0", UBSAN_OPTIONS="print_stacktrace=1"))
+    with open(os.path.join(d, "stderr.txt"), "w") as f: f.write(out)
+    if rc != 0 and not os.path.exists(res):
+        raise CheckError("vec_rc failed: " + out[-2000:])
+    items = []
+    last = None
+    for line in out.splitlines():
+        if line.startswith("PROBE "): last = line.split()[1:3]
+        elif "ERROR: AddressSanitizer" in line or "runtime error" in line:
+            items.append(("C20_c_LookupOutsideTable", last[0] if last else "?", "category %s byte %s: %s" % (last[0], last[1], line.strip()) if last else line))
+    rc2, out2 = vlib.tlc("TraceRC.tla", "TraceRC.cfg", env=dict(TRACE=res), workers=1, timeout=600)
+    gen, dist = vlib.tlc_stats(out2)
+    if "REJECTED" in out2 or rc2 != 0 or gen == 0:
+        raise CheckError("TraceRC did not consume the results: " + out2[-2000:])
+    for (inp, cl) in _viol_lines(out2):
+        items.append((cl, inp.split(":")[0], inp))
+    new = report_simple(pid, items, lambda cl, cls: "to_reason_code<%s>(byte): %s" % (cls, cl))
+    samples = []
+    with open(res) as f:
+        for i, line in enumerate(f):
+            if i in (0, 163, 2303): samples.append(json.loads(line))
+    return dict(name="C20 reason-code tables", states=dist, transitions=gen, violations=new, vectors=2304, exhaustive=True,
+                asan_reports=len([i for i in items if i[0] == "C20_c_LookupOutsideTable"]), samples=samples)
+
+
+# ----------------------------------------------------------------------------- component drivers (C08 allocator, C11 mutex)
+def _component(pid, tier, seed, drv, tracespec, model, model_cfgs, name, crash_clause):
+    build_pure(drv)
+    d = os.path.join(vlib.WORK, "run", drv); shutil.rmtree(d, ignore_errors=True); os.makedirs(d)
+    out = dict(name=name, states=0, transitions=0, violations=0, samples=[], runs=[])
+    # (1) exhaustive model checking of the component specification
+    for cfg in model_cfgs:
+        r = run_model(model, cfg, [model], workers=8)
+        out["states"] += r["distinct"]; out["transitions"] += r["generated"]
+        out["runs"].append({k: r[k] for k in ("cfg", "generated", "distinct", "depth", "violated", "wall", "cached")})
+        for inv in r["violated"]:
+            out["violations"] += 1
+            log("VIOLATION property=%s replay=%s model=%s invariant=%s" % (pid, r["replay"], cfg, inv))
+    # (2) the real component driven through exhaustively enumerated + random call sequences, validated by TLC
+    res = os.path.join(d, "trace.ndjson")
+    rc, o = vlib.sh([os.path.join(vlib.BIN, drv), res, tier, str(seed)], timeout=1200,
+                    env=dict(ASAN_OPTIONS="halt_on_error=1:detect_leaks=0"))
+    items = []
+    m = re.search(r"(\d+) sequences, (\d+) events", o)
+    if rc != 0:
+        with open(os.path.join(d, "driver.txt"), "w") as f: f.write(o)
+        items.append((crash_clause, "driver-crash", "the driver running the real component aborted (rc=%d): %s" % (rc, o[-1500:])))
+    else:
+        rc2, o2 = vlib.tlc(tracespec + ".tla", tracespec + ".cfg", env=dict(TRACE=res), workers=1, timeout=2400, java_opts="-Xmx8g")
+        gen, dist = vlib.tlc_stats(o2)
+        out["states"] += dist; out["transitions"] += gen
+        inv = re.findall(r"Invariant (\w+) is violated", o2)
+        for (where, cl) in _viol_lines(o2): items.append((cl, "trace", "event %s of %s" % (where, res)))
+        for iv in inv: items.append(("%s_i_%s" % (pid, iv), "trace", "specification invariant %s violated on the recorded trace %s" % (iv, res)))
+        if not inv and ("REJECTED" in o2 or rc2 != 0 or gen == 0):
+            raise CheckError("%s did not consume the trace: %s" % (tracespec, o2[-2000:]))
+        with open(res) as f:
+            out["samples"] = [json.loads(next(f)) for _ in range(6)]
+    out["sequences"] = int(m.group(1)) if m else 0
+    out["vectors"] = out["sequences"]
+    out["events"] = int(m.group(2)) if m else 0
+    out["violations"] += report_simple(pid, items, lambda cl, cls: "%s: %s" % (name, cl))
+    return out
+
+
+def c08_alloc(pid, tier, seed):
+    return _component(pid, tier, seed, "drv_pid", "TracePid", "PidAlloc.tla",
+                      ["PidAlloc.cfg"] + (["PidAlloc.thorough.cfg"] if tier == "thorough" else []),
+                      "packet_id_allocator (spec/PidAlloc.tla)", "C08_x_AllocatorCrashed")
+
+
+def c11_mutex(pid, tier, seed):
+    return _component(pid, tier, seed, "drv_mutex", "TraceMutex", "AsyncMutex.tla",
+                      ["AsyncMutex.cfg", "AsyncMutex.live.cfg"],
+                      "async_mutex (spec/AsyncMutex.tla)", "C11_x_MutexCrashed")
